@@ -319,7 +319,9 @@ def run(scn, keep_log=False, real_server=None):
             def on_deliver(pipe):
                 while pipe.rx:
                     pass_data = pipe.take(len(pipe.rx))
-                    # one client write = one delivery (planner-less pipe): one frame
+                    # one client write = one delivery (planner-less pipe): one frame.
+                    # A server answers on the connection the request came in on.
+                    peer.send, peer.close, peer.reset = send, close, reset
                     peer.on_frame(pass_data)
             ch.ab.on_deliver = on_deliver
             return ch
